@@ -27,8 +27,26 @@ class Unsupported(Inconclusive):
 CHECK_TIMEOUT_MS = int(os.environ.get("SX_CHECK_TIMEOUT_MS", "120000"))
 
 
+# symbolic-by-symbolic multiplication / floor division (the usage blur `B * (t // B)`) are kept as
+# uninterpreted functions during exploration and validity checks (a sound over-approximation that
+# keeps every query linear); their real semantics are added as ground axioms only when a
+# counterexample candidate has to be confirmed or refuted (Engine.check_cex).
+UMUL = z3.Function("umul", z3.RealSort(), z3.RealSort(), z3.RealSort())
+UFDIV = z3.Function("ufdiv", z3.RealSort(), z3.RealSort(), z3.RealSort())
+
+
+def _is_numeral(t):
+    t = z3.simplify(t)
+    return z3.is_rational_value(t) or z3.is_int_value(t)
+
+
+def _real(t):
+    return z3.ToReal(t) if z3.is_int(t) else t
+
+
 class Engine:
     cur = None
+    exact_arith = False       # kernels that are about the arithmetic itself switch this on
 
     def __init__(self):
         self.stats = dict(paths=0, infeasible=0, decisions=0, solver_queries=0, solver_s=0.0,
@@ -54,12 +72,46 @@ class Engine:
         """model of pc ∧ extra, or None when unsat"""
         return self._check(*extra)
 
+    def check_cex(self, *extra):
+        """like check_sat, but a model is only returned if it survives the real semantics of the
+        abstracted arithmetic (otherwise the candidate was an artefact of the abstraction)"""
+        m = self._check(*extra)
+        if m is None or not self.uf_axioms:
+            return m
+        ax = list(self.uf_axioms)
+        # first try with the nonlinear factors pinned to the candidate's values (linear query)
+        pins = [p == m.eval(p, model_completion=True) for p in self.uf_pins]
+        try:
+            m2 = self._check(*(list(extra) + ax + pins))
+        except Inconclusive:
+            m2 = None
+        if m2 is not None:
+            return m2
+        return self._check(*(list(extra) + ax))
+
+    def uf_mul(self, a, b):
+        a, b = _real(a), _real(b)
+        r = UMUL(a, b)
+        self.uf_axioms.append(r == a * b)
+        self.uf_pins.append(a)
+        return r
+
+    def uf_fdiv(self, a, b):
+        a, b = _real(a), _real(b)
+        q = UFDIV(a, b)
+        self.uf_axioms.append(z3.Implies(b > 0, z3.And(z3.IsInt(q), q * b <= a, a < (q + 1) * b)))
+        self.uf_pins.append(b)
+        return q
+
     def begin(self, prefix):
         self.prefix = list(prefix)
         self.trace = []
         self.solver = z3.Solver()
         self.solver.set("timeout", CHECK_TIMEOUT_MS)
         self.fresh = {}
+        self.uf_axioms = []
+        self.uf_pins = []
+        self.str_vars = set()
         self.solver.check()
         self.model = self.solver.model()
         self.spawned = []
@@ -116,6 +168,51 @@ class Engine:
         self.trace.append(d)
         return d
 
+    # ---- function summaries: explore a pure call exhaustively here and merge its results --------
+    def merge_call(self, fn, make_args):
+        """run fn(*make_args()) on every feasible path *from the current path condition*, and return
+        one ite-merged result instead of forking the caller (sound for side-effect-free functions).
+        Sub-paths on which fn raises become one decision of the caller."""
+        outer = (self.trace, self.prefix, self.spawned, self.model)
+        base_pc = len(self.pc)
+        results, raising = [], []
+        work = [[]]
+        try:
+            while work:
+                sub = work.pop()
+                self.solver.push()
+                self.trace, self.prefix, self.spawned = [], sub, []
+                self.model = outer[3]
+                try:
+                    try:
+                        val = fn(*make_args())
+                        kind = "ret"
+                    except (Abort,):
+                        kind = "abort"
+                        val = None
+                    except Inconclusive:
+                        raise
+                    except Exception as ex:
+                        kind, val = "raise", ex
+                    cond = z3.And(*self.pc[base_pc:]) if len(self.pc) > base_pc else z3.BoolVal(True)
+                    work.extend(self.spawned)
+                    if kind == "ret":
+                        results.append((cond, val))
+                    elif kind == "raise":
+                        raising.append((cond, val))
+                    self.stats["merged_subpaths"] = self.stats.get("merged_subpaths", 0) + 1
+                finally:
+                    del self.pc[base_pc:]
+                    self.solver.pop()
+        finally:
+            self.trace, self.prefix, self.spawned, self.model = outer
+        if raising:
+            if not results or self.decide(z3.Or(*[c for c, _ in raising])):
+                raise raising[0][1]
+        if not results:
+            raise Abort()
+        return merge_values(results)
+
     def assume(self, cond):
         if isinstance(cond, SBool):
             cond = cond.z
@@ -140,7 +237,11 @@ class Engine:
 
     # ---- fresh symbols ---------------------------------------------------------------
     def sym_str(self, base):
-        return SStr(z3.String(self.name(base)))
+        n = self.name(base)
+        z = z3.Real(n)
+        self.str_vars.add(n)
+        self.assume(z >= 0)       # "" is the least string
+        return SStr(z)
 
     def sym_real(self, base):
         return SNum(z3.Real(self.name(base)))
@@ -201,7 +302,7 @@ def tobool(x):
     if isinstance(x, SNum):
         return x.z != 0
     if isinstance(x, SStr):
-        return x.z != z3.StringVal("")
+        return x.z != 0
     return z3.BoolVal(bool(x))
 
 
@@ -211,8 +312,91 @@ def zs(o):
     if isinstance(o, str):
         if MARK in o:
             raise Unsupported("a string built by formatting a symbolic value is used as data")
-        return z3.StringVal(o)
+        return z3.RealVal(str_image(o))
     raise Unsupported("string expected, got %r" % type(o))
+
+
+# ---------------------------------------------------------------------------------------------
+# Strings are modelled as points of a dense total order with least element: the code under test
+# only ever compares client strings for equality / order (sorted) and against constants, so a
+# string s is represented by the rational  img(s) = sum (ord(s[i])+1) / B^(i+1),  B = 0x110001,
+# which is strictly monotone for Python's (code point, prefix-first) string order.  Every other
+# string operation on a proxy raises Unsupported.  Models are turned back into strings by
+# Decoder (order- and constant-preserving).
+# ---------------------------------------------------------------------------------------------
+_B = 0x110001
+STR_CONSTS = {}          # image (Fraction) -> python str, for every constant lifted so far
+
+
+def str_image(s):
+    f = Fraction(0)
+    p = Fraction(1, _B)
+    for ch in s:
+        f += (ord(ch) + 1) * p
+        p /= _B
+    STR_CONSTS.setdefault(f, str(s))
+    return f
+
+
+def str_between(a, b):
+    """a python string strictly between a and b (b None = no upper bound); None if adjacent"""
+    if b is None:
+        return a + "~"
+    if not b.startswith(a):
+        return a + "!"
+    r = b[len(a):]
+    if ord(r[0]) > ord("!"):
+        return a + "!"
+    if ord(r[0]) > 1:
+        return a + "\x01"
+    if len(r) > 1:
+        return a + r[0]
+    if r == "\x01":
+        return a + "\x00"
+    return None
+
+
+str_image("")
+
+
+class Decoder:
+    """model -> python values; string-kinded reals are mapped back to strings such that all order
+    and equality relations among them and the lifted constants are preserved"""
+
+    def __init__(self, model):
+        self.model = model
+        self.assigned = dict(STR_CONSTS)       # Fraction -> str
+        self.counter = 0
+
+    def num(self, term):
+        return model_value(self.model, term)
+
+    def string(self, term):
+        v = model_value(self.model, term)
+        v = Fraction(v)
+        if v in self.assigned:
+            return self.assigned[v]
+        keys = sorted(self.assigned)
+        import bisect
+        i = bisect.bisect_left(keys, v)
+        lo = self.assigned[keys[i - 1]] if i > 0 else None
+        hi = self.assigned[keys[i]] if i < len(keys) else None
+        if lo is None:
+            raise Inconclusive("model places a string below the empty string")
+        # prefer readable values: try a few pretty candidates that fit between the neighbours
+        cand = None
+        for k in range(self.counter, self.counter + 40):
+            c = lo + "%s%d" % ("-" if lo else "v", k)
+            if c > lo and (hi is None or c < hi):
+                cand = c
+                self.counter = k + 1
+                break
+        if cand is None:
+            cand = str_between(lo, hi)
+        if cand is None:
+            raise Inconclusive("model needs a string strictly between %r and %r" % (lo, hi))
+        self.assigned[v] = cand
+        return cand
 
 
 MARK = "\ufff0SYM\ufff0"     # content of a formatted proxy: fine in log lines, never allowed as data
@@ -252,7 +436,7 @@ class SStr(str):
         raise Unsupported("hash of symbolic str (dict/set keyed by client data)")
 
     def __bool__(self):
-        return E().decide(self.z != z3.StringVal(""))
+        return E().decide(self.z != 0)
 
     def __len__(self):
         raise Unsupported("len of symbolic str")
@@ -270,10 +454,10 @@ class SStr(str):
         raise Unsupported("%-formatting with a symbolic template")
 
     def __add__(self, o):
-        return SStr(z3.Concat(self.z, zs(o)))
+        raise Unsupported("concatenation with a symbolic str")
 
     def __radd__(self, o):
-        return SStr(z3.Concat(zs(o), self.z))
+        raise Unsupported("concatenation with a symbolic str")
 
     def __iter__(self):
         raise Unsupported("iteration over symbolic str")
@@ -282,7 +466,7 @@ class SStr(str):
         raise Unsupported("indexing symbolic str")
 
     def __contains__(self, o):
-        return bool(SBool(z3.Contains(self.z, zs(o))))
+        raise Unsupported("substring test on a symbolic str")
 
     def encode(self, *a, **k):
         raise Unsupported("encode of symbolic str")
@@ -369,6 +553,8 @@ class SNum:
 
     def __mul__(self, o):
         a, b = self._pair(o)
+        if not Engine.exact_arith and not _is_numeral(a) and not _is_numeral(b):
+            return SNum(E().uf_mul(self.z, _num_term(o, self.z)))
         return SNum(a * b)
 
     __rmul__ = __mul__
@@ -380,6 +566,8 @@ class SNum:
         a, b = self._pair(o)
         # Python floor division, divisor assumed positive by the callers' contract (blur >= 1);
         # for Reals: floor(a/b) as an Int lifted back to Real (Python returns a float there)
+        if not Engine.exact_arith and not _is_numeral(b):
+            return SNum(E().uf_fdiv(self.z, _num_term(o, self.z)))
         if z3.is_int(a):
             return SNum(a / b)
         return SNum(z3.ToReal(z3.ToInt(a / b)))
@@ -418,6 +606,59 @@ class SNum:
 
     def __format__(self, spec):
         return MARK
+
+
+class SOpt:
+    """a value that is None on some merged sub-paths: (null: Bool term, value: proxy or python value)"""
+
+    def __init__(self, null, value):
+        self.null, self.value = null, value
+
+    def __eq__(self, o):
+        raise Unsupported("comparison of a merged optional value")
+
+    __hash__ = None
+
+    def concretise(self, dec):
+        return None if dec.num(self.null) else conc(dec, self.value)
+
+
+def merge_values(results):
+    """[(cond, value)] with exhaustive conds -> one value"""
+    vals = [v for _, v in results]
+    first = vals[0]
+    if all(v is first for v in vals):
+        return first
+    if all(v is None for v in vals):
+        return None
+    if any(v is None for v in vals):
+        null = z3.Or(*[c for c, v in results if v is None])
+        rest = [(c, v) for c, v in results if v is not None]
+        return SOpt(z3.simplify(null), merge_values(rest))
+    if all(isinstance(v, tuple) for v in vals) and len({len(v) for v in vals}) == 1:
+        fields = [merge_values([(c, v[i]) for c, v in results]) for i in range(len(first))]
+        if hasattr(first, "_fields"):
+            return type(first)(*fields)
+        return tuple(fields)
+    if all(isinstance(v, str) for v in vals):
+        z = zs(vals[-1])
+        for c, v in results[-2::-1]:
+            z = z3.If(c, zs(v), z)
+        return W(z, "s")
+    if all(isinstance(v, (bool, SBool)) for v in vals):
+        z = tobool(vals[-1])
+        for c, v in results[-2::-1]:
+            z = z3.If(c, tobool(v), z)
+        return W(z)
+    if all(isinstance(v, (int, float, Fraction, SNum)) and not isinstance(v, bool) for v in vals):
+        terms = [Z(v) for v in vals]
+        if len({str(t.sort()) for t in terms}) > 1:
+            terms = [z3.ToReal(t) if z3.is_int(t) else t for t in terms]
+        z = terms[-1]
+        for (c, _), t in list(zip(results, terms))[-2::-1]:
+            z = z3.If(c, t, z)
+        return W(z)
+    raise Unsupported("cannot merge results of types %r" % sorted({type(v).__name__ for v in vals}))
 
 
 # =====================================================================================
@@ -584,18 +825,37 @@ def Z(v):
     if isinstance(v, Fraction):
         return z3.RealVal(v)
     if isinstance(v, str):
-        if MARK in v:
-            raise Unsupported("a string built by formatting a symbolic value is used as data")
-        return z3.StringVal(v)
+        return zs(v)
     raise Unsupported("cannot lift %r to a term" % type(v))
 
 
-def W(z):
+def kind_of(v):
+    """'s' string, 'i' integer/boolean, 'r' real, None for None"""
+    if v is None:
+        return None
+    if isinstance(v, SOpt):
+        return kind_of(v.value)
+    if isinstance(v, str):
+        return "s"
+    if isinstance(v, SNum):
+        return "i" if z3.is_int(v.z) else "r"
+    if isinstance(v, (SBool, bool, int)):
+        return "i"
+    if isinstance(v, (float, Fraction)):
+        return "r"
+    if isinstance(v, z3.ExprRef):
+        return "i" if z3.is_int(v) or z3.is_bool(v) else "r"
+    raise Unsupported("value of type %r has no storage class" % type(v))
+
+
+def W(z, kind=None):
     """z3 term -> python value when constant, else proxy"""
     z = z3.simplify(z)
-    if z.sort() == z3.StringSort():
-        if z3.is_string_value(z):
-            return decode_z3_string(z)
+    if kind == "s":
+        if z3.is_rational_value(z):
+            fr = Fraction(z.numerator_as_long(), z.denominator_as_long())
+            if fr in STR_CONSTS:
+                return STR_CONSTS[fr]
         return SStr(z)
     if z3.is_bool(z):
         if z3.is_true(z):
@@ -625,8 +885,6 @@ def decode_z3_string(z):
 def model_value(model, term):
     """evaluate a term under a model -> python value (str / int / Fraction / bool)"""
     v = model.eval(term, model_completion=True)
-    if v.sort() == z3.StringSort():
-        return decode_z3_string(v)
     if z3.is_bool(v):
         return z3.is_true(v)
     if z3.is_int_value(v):
@@ -640,18 +898,20 @@ def model_value(model, term):
     raise Inconclusive("cannot concretise %s" % v)
 
 
-def conc(model, v):
-    """evaluate a proxy / term / container under a model -> plain python value"""
-    if isinstance(v, (SStr, SNum)):
-        return model_value(model, v.z)
-    if isinstance(v, SBool):
-        return model_value(model, v.z)
+def conc(dec, v):
+    """evaluate a proxy / term / container under a model (Decoder) -> plain python value"""
+    if not isinstance(dec, Decoder):
+        dec = Decoder(dec)
+    if isinstance(v, SStr):
+        return dec.string(v.z)
+    if isinstance(v, (SNum, SBool)):
+        return dec.num(v.z)
     if isinstance(v, z3.ExprRef):
-        return model_value(model, v)
+        return dec.num(v)
     if hasattr(v, "concretise"):
-        return v.concretise(model)
+        return v.concretise(dec)
     if isinstance(v, dict):
-        return {k: conc(model, x) for k, x in v.items()}
+        return {k: conc(dec, x) for k, x in v.items()}
     if isinstance(v, (list, tuple)):
-        return [conc(model, x) for x in v]
+        return [conc(dec, x) for x in v]
     return v
